@@ -1,16 +1,20 @@
-(* C17 - a cleared VM behaves like a fresh one; runs are deterministic and do not leak.  PARTIAL.
-   Statements only; proofs are in Cao.VmProofs (model Cao.Vm).
+(* C17 - a cleared VM behaves like a fresh one; runs are deterministic and do not leak.
+   Statements only; proofs are in Cao.VmProofs and Cao.VmClearProofs .. VmClearProofs4 (model Cao.Vm).
    Proved: what `clear` leaves is, on every component a later run can read, what a new Vm has (C17_clear_is_fresh);
    `run` installs its own budget; a completed run leaves no call frame, so repeated runs never fail for lack of
    frames (finding A-18, fixed); determinism.
-   NOT proved (claimed by the correspondence run only, oracle code 2 of C17Check.v: every step that starts with
-   `clear` is compared with the same step on a new Vm): `run P (clear s) = run P fresh` for all histories. The
-   missing lemma is that no instruction reads a value-stack slot at or above the high-water mark of the current
-   run (dead slots keep their old contents after `clear`; `Return` can raise the height again, but only up to a
-   height the same run had reached before). The allocator part (allocated = 0, threshold reset) is
-   AllocProofs.clear_is_fresh on the allocator model. *)
+   run P (clear s) = run P fresh (C17_run_after_clear), for ALL programs (any bytecode), budgets, natives of the
+   menu and nesting depths: `clear` leaves the old contents in the dead slots of the value stack, so the two runs
+   are not equal as records; they are related by [Sim]: same height, same contents below a HIGH-WATER MARK (every
+   slot below it has been written by both Vms with the same value during the current run; it also bounds every
+   frame offset and every open-upvalue location), everything else equal. The heart is that no ValueStack operation
+   and no raw upvalue access reads a slot at or above the high-water mark before writing it (C17_stack_ops_agree,
+   C17_step_after_clear); [Sim] implies equality of everything an observer can read (C17_sim_readable).
+   NOT in the model, hence not proved here: the allocator (allocated = 0 and the collection threshold reset after
+   clear: AllocProofs.clear_is_fresh on the allocator model, and the counter / sweep oracles of C17Check.v on
+   histories under a small memory limit), and garbage collection during a run. *)
 From Coq Require Import NArith List Lia.
-From Cao Require Import Stacks Vm VmProofs.
+From Cao Require Import Stacks Vm VmProofs VmClearProofs VmClearProofs2 VmClearProofs3 VmClearProofs4.
 Import ListNotations.
 
 Theorem C17_clear_is_fresh : forall s,
@@ -43,3 +47,41 @@ Theorem C17_deterministic : forall F bld N P s r1 r2,
   run F bld N P s = r1 -> run F bld N P s = r2 -> r1 = r2.
 Proof. exact run_deterministic. Qed.
 Print Assumptions C17_deterministic.
+
+(* no ValueStack operation reads a slot at or above the high-water mark before writing it: on two stacks that agree
+   below hw every operation returns the same output and leaves stacks that agree below max hw (new height);
+   clear_until(h) needs h <= hw *)
+Theorem C17_stack_ops_agree : forall (V : Type) (vnil : V) hw (a b : vstack V) (o : vop V),
+  agree vnil hw a b -> op_ok hw o ->
+  snd (vs_step vnil a o) = snd (vs_step vnil b o) /\
+  agree vnil (Nat.max hw (vcount (fst (vs_step vnil a o)))) (fst (vs_step vnil a o)) (fst (vs_step vnil b o)).
+Proof. exact vs_step_agree. Qed.
+Print Assumptions C17_stack_ops_agree.
+
+(* one instruction - any opcode, natives included - on two states related by Sim, given that nested runs
+   preserve the relation *)
+Theorem C17_step_after_clear : forall F bld P re,
+  (forall ip x y, Sim x y -> rres_sim (re ip x) (re ip y)) ->
+  forall ip a b, Sim a b -> sres_sim (step F bld P re ip a) (step F bld P re ip b).
+Proof. intros F bld P re Hre. exact (@step_sim F bld P re (@natives_ok_holds F P re Hre)). Qed.
+Print Assumptions C17_step_after_clear.
+
+(* run P (clear s) against run P on a new Vm (with the same host log, ghost counter and leftover budget, which are
+   not VM state): the same outcome - error payload and trace included - and final states related by Sim *)
+Theorem C17_run_after_clear : forall F bld N P s,
+  length (vdata (st_stack s)) = stack_size ->
+  let fresh := mkState (vs_new VNil stack_size) [] [] [] None (st_log s) (st_count s) (st_rem s) in
+  fst (run F bld N P (clear_state s)) = fst (run F bld N P fresh) /\
+  Sim (snd (run F bld N P fresh)) (snd (run F bld N P (clear_state s))).
+Proof. exact run_after_clear. Qed.
+Print Assumptions C17_run_after_clear.
+
+(* two states related by Sim are equal in everything that can be read: frames, globals, heap, open upvalues, host
+   log, counters, the height and the live part of the value stack *)
+Theorem C17_sim_readable : forall x y, Sim x y ->
+  st_calls y = st_calls x /\ st_globals y = st_globals x /\ st_heap y = st_heap x /\ st_open y = st_open x /\
+  st_log y = st_log x /\ st_count y = st_count x /\ st_rem y = st_rem x /\
+  vcount (st_stack y) = vcount (st_stack x) /\
+  firstn (vcount (st_stack x)) (vdata (st_stack y)) = firstn (vcount (st_stack x)) (vdata (st_stack x)).
+Proof. exact Sim_readable. Qed.
+Print Assumptions C17_sim_readable.
